@@ -275,7 +275,9 @@ def gen_phase1(rng, nclients):
 def run_history(sc, kind, unix, rng, hidx):
     transport = "unix" if unix else "tcp"
     slow = kind == "threadpool"
-    auth = hidx % 5 == 4          # every fifth history: token authenticator, some phase-1 clients fail it and leave
+    # every fifth history: token authenticator, some phase-1 clients fail it and leave; every tenth: the authenticator hands
+    # back another socket object than the one accepted (as the SSL authenticator does)
+    auth = ("rewrap" if (unix or hidx % 10 == 9) else True) if hidx % 5 == 4 else False
     try:
         sp = rn.ServerProc(kind, unix=unix, auth=auth)
     except rn.ChildError as e:
